@@ -1,1 +1,5 @@
-//! harness package hactor
+//! harness package hactor: recorder for property C19 (compio-actor).
+//!
+//! `prog` holds the seeded program generator (plain data, serialisable so that a failing program is its
+//! own replay file); the recorder itself is `src/bin/record_actor.rs`.
+pub mod prog;
